@@ -1,0 +1,32 @@
+//go:build verif
+
+/*
+ * SPDX-FileCopyrightText: © 2017-2025 Istari Digital, Inc.
+ * SPDX-License-Identifier: Apache-2.0
+ */
+
+package ristretto
+
+import "sync/atomic"
+
+// verifHooks is installed by a verification harness (in-package test). Point is called at the hook
+// points listed in verif_points.go and may block (gate); Sample is called under the policy lock for
+// every sampling round of policy.Add.
+type verifHooks struct {
+	Point  func(id int, a, b uint64)
+	Sample func(key uint64, incHits int64, sample []*policyPair, minKey uint64, minHits int64)
+}
+
+var verifHook atomic.Pointer[verifHooks]
+
+func verifPoint(id int, a, b uint64) {
+	if h := verifHook.Load(); h != nil && h.Point != nil {
+		h.Point(id, a, b)
+	}
+}
+
+func verifSample(key uint64, incHits int64, sample []*policyPair, minKey uint64, minHits int64) {
+	if h := verifHook.Load(); h != nil && h.Sample != nil {
+		h.Sample(key, incHits, sample, minKey, minHits)
+	}
+}
